@@ -389,8 +389,9 @@ class C11(core.Check):
         self.notes.append('interpretation: containment is judged on the location a path denotes lexically and the '
                           'kernel walk reaches; a/../sibling/../a passes through the sibling without being counted '
                           '(it still tells the client whether the sibling directory exists)')
-        self.notes.append('observed, not a C11 clause: a session id naming an existing directory inside storage_path '
-                          '(session-d) is adopted and the save at the end of the request fails with 500')
+        self.notes.append('a session id naming an existing directory inside storage_path (session-d) is not adopted '
+                          '(_exists = os.path.isfile since repo 8deaa5f; before that it was adopted and the save '
+                          'failed with 500 - that 500 is not a C11 clause and is only counted if it reappears)')
         self._apps = {}
         self._seen = []
         self._cwd0 = os.getcwd()
